@@ -6,7 +6,7 @@
 //!   cfg <iour|poll> <cap>      build a Proactor with that driver and submission-queue capacity
 //!   push <rd|acc|zc|blk> <s>   rd  = Recv(4-byte buffer) on unix stream socket slot s (0..=3)
 //!                              acc = AcceptMulti on TCP listener slot s (4..=5)
-//!                              zc  = SendZc(5 bytes) on TCP connection slot s (6..=7)
+//!                              zc  = SendZc(5 bytes) on TCP connection slot 6 / unix stream pair slot 7
 //!                              blk = Asyncify closure blocked on a channel ("gate")
 //!   ready <s> <k>              write k 4-byte chunks to the peer of slot s / make k connections to listener s
 //!   poll                       poll(Some(ZERO)) until two consecutive polls time out
@@ -41,7 +41,7 @@ use std::{
 
 use compio_buf::{BufResult, IntoInner, IoBuf, IoBufMut, SetLen};
 use compio_driver::{
-    Cancel, DriverType, Key, OpCode, Proactor, PushEntry,
+    Cancel, DriverType, Key, Proactor, PushEntry,
     op::{AcceptMulti, Asyncify, Recv, SendZc},
 };
 use hx_common::{Case, Exec, catch};
@@ -263,6 +263,9 @@ enum Slot {
     Pair { a: Arc<OwnedFd>, peer: std::os::unix::net::UnixStream },
     Listener { l: Arc<OwnedFd>, addr: std::net::SocketAddr, conns: Vec<std::net::TcpStream> },
     Tcp { a: Arc<OwnedFd>, _peer: std::net::TcpStream },
+    /// unix stream pair used for `SendZc`: the kernel refuses zero-copy there (EOPNOTSUPP in the send CQE) but
+    /// still runs the two-CQE protocol, and posts both CQEs synchronously with the submit
+    UnixZc { a: Arc<OwnedFd>, _peer: std::os::unix::net::UnixStream },
 }
 
 struct World {
@@ -358,6 +361,11 @@ impl World {
                     l.set_nonblocking(true).unwrap();
                     Slot::Listener { l: Arc::new(l.into()), addr, conns: vec![] }
                 }
+                _ if s == 7 => {
+                    let (a, b) = std::os::unix::net::UnixStream::pair().unwrap();
+                    a.set_nonblocking(true).unwrap();
+                    Slot::UnixZc { a: Arc::new(a.into()), _peer: b }
+                }
                 _ => {
                     let l = std::net::TcpListener::bind("127.0.0.1:0").unwrap();
                     let a = std::net::TcpStream::connect(l.local_addr().unwrap()).unwrap();
@@ -376,6 +384,7 @@ impl World {
             Slot::Pair { a, .. } => a.clone(),
             Slot::Listener { l, .. } => l.clone(),
             Slot::Tcp { a, .. } => a.clone(),
+            Slot::UnixZc { a, .. } => a.clone(),
         }
     }
 
@@ -491,11 +500,6 @@ fn settle(p: &mut Proactor) {
             std::thread::sleep(Duration::from_micros(150));
         }
     }
-}
-
-pub struct Interp<'a> {
-    pub ex: &'a mut Exec,
-    pub prop: &'static str,
 }
 
 /// Dispose of an operation handed back to the caller; returns the received bytes for `rd`.
@@ -709,14 +713,23 @@ impl World {
             ["flush"] => {
                 let Some(p) = self.p.as_mut() else { return self.fin("noproactor") };
                 with_phase(PH_FLUSH, || p.flush());
+                let mut overflow = false;
                 if self.iour() {
                     if self.need_notifier {
+                        overflow = self.sq_est >= self.cap;
                         self.note_sq_push();
                         self.need_notifier = false;
                     }
                     self.note_submit();
                 }
                 std::thread::sleep(Duration::from_millis(2));
+                if overflow {
+                    // same race as in `push` (arm_notifier goes through the overflow loop)
+                    let p = self.p.as_mut().unwrap();
+                    settle(p);
+                    self.polls += 1;
+                    self.note_poll();
+                }
                 ex.tag("ev:flush");
                 "ok".into()
             }
@@ -1002,6 +1015,9 @@ impl World {
             rec.buf = Some(c.clone());
             Buf { canary: CANARY, v, c }
         };
+        // CQEs caused by the submit inside the `push_raw` overflow loop are posted by task work a moment later;
+        // whether the drain of the same call sees them is a race: poll to quiescence after such a push
+        let overflow = iour && kind != HKind::Blk && self.sq_est >= self.cap;
         if iour && kind != HKind::Blk {
             self.note_sq_push();
         }
@@ -1102,6 +1118,13 @@ impl World {
                 }
             }
         }
+        if overflow {
+            if let Some(p) = self.p.as_mut() {
+                settle(p);
+                self.polls += 1;
+                self.note_poll();
+            }
+        }
         out
     }
 
@@ -1131,18 +1154,17 @@ impl World {
                 }
             } else if !o.cancel_requested && o.kind == HKind::Rd && !self.written[o.slot].is_empty() && self.polls > self.ready_at[o.slot].max(o.pushed_at) {
                 // data is waiting on its descriptor: is it waiting for this op?
+                // every other receive on that descriptor whose result the harness has not seen may hold a chunk
                 let waiting = self
                     .ops
                     .iter()
                     .enumerate()
-                    .filter(|(j, p)| *j != i && p.kind == HKind::Rd && p.slot == o.slot && p.pending && !p.finished && !p.cancel_requested && p.held())
-                    .count()
-                    // an op whose key the caller gave up may have taken a chunk nobody saw
-                    + self.ops.iter().filter(|p| p.kind == HKind::Rd && p.slot == o.slot && !p.returned && !p.held()).count();
+                    .filter(|(j, p)| *j != i && p.kind == HKind::Rd && p.slot == o.slot && !p.returned)
+                    .count();
                 if self.written[o.slot].len() > waiting && !o.reported {
                     ex.fail(
                         "C05:neighbour-stuck",
-                        format!("op {i} on slot {} is still pending although {} chunk(s) are unread and only {waiting} other live op(s) wait there", o.slot, self.written[o.slot].len()),
+                        format!("op {i} on slot {} is still pending although {} chunk(s) are unread and only {waiting} other unobserved receive(s) exist there", o.slot, self.written[o.slot].len()),
                     );
                     self.ops[i].reported = true;
                 }
@@ -1425,7 +1447,9 @@ pub fn random_program(
                         None => continue,
                     }
                 }
-                "zc" => 6 + rng.below(2) as usize,
+                // slot 6 is real TCP zero-copy: its notification CQE arrives a few microseconds after the submit, so
+                // keep it where no same-call drain can follow the submit (no SQ overflow); slot 7 is synchronous
+                "zc" => if cap == 1024 { 6 + rng.below(2) as usize } else { 7 },
                 _ => 0,
             };
             pushed_on[slot] += (kind == "rd") as usize;
